@@ -502,7 +502,7 @@ def r2b_accumulators(ctx):
                     if last is None:
                         continue
                     region = after[:last + 1]
-                    grown, reassigned, in_loop = [], None, False
+                    grown, reassigned, in_loop, n_re, re_loop = [], None, False, 0, False
                     for s in region:
                         for n in ast.walk(s):
                             g = None
@@ -521,6 +521,15 @@ def r2b_accumulators(ctx):
                             if isinstance(n, ast.Assign) and any(isinstance(t, ast.Name) and t.id == nm for t in n.targets) and \
                                     nm not in names_in(n.value):
                                 reassigned = n
+                                n_re += 1
+                                re_loop = re_loop or enclosing(n, (ast.For, ast.While)) in \
+                                    [x for x in ast.walk(s) if isinstance(x, (ast.For, ast.While))]
+                    if not grown and reassigned is not None and (n_re >= 2 or re_loop):
+                        # initialised empty, then only ever replaced, step after step: each step discards the previous one
+                        ctx.bad('R2.accumulate', site(f, reassigned), f'{f.qual}|accumulator-overwritten|{nm}',
+                                f'{nm} is initialised empty and then re-assigned at each of several steps: only the last step survives '
+                                '(e.g. a ROADM mixing per-degree target types loses all but one)', ast.unparse(reassigned)[:160])
+                        continue
                     if not grown or not (in_loop or len(grown) >= 2):
                         continue
                     if reassigned is not None:
